@@ -8,6 +8,7 @@
     occurrences of [w] in [toks]. *)
 From TU Require Import Base C12_Model C20_Model C20_Topk C20_Counts C20_SaveLoad C20_Closest C20_Proofs C20_Check.
 From Coq Require Import Permutation Sorted QArith.
+From TU Require Import C20_UAX29.
 Open Scope N_scope.
 
 (** [.take(max_sequences)]: the model's [take_opt] is [firstn]. *)
@@ -252,3 +253,100 @@ Example check_run_witness :
               L [L [L []; I 0%Z; L [I 97; I 99]%Z; L [L [I 97%Z]; L [I 99%Z]]]]] in
   segs_cover v = true /\ check_C20 v (run_C20 v) = true.
 Proof. vm_compute. split; reflexivity. Qed.
+
+(** ** Grapheme segmentation inside the model (UAX29_Model.segment, tied to the crate
+    unicode-segmentation by the correspondence [uax29_agree]).  Keys and words are byte strings in
+    this model; [seg_bytes s] = the UTF-8 encodings of the clusters of [segment s] for a text [s]
+    of Unicode scalar values, [seg_checked cls] = "decode the concatenation ([utf8_decode], the strict
+    decoder of C01), segment, encode: the result is [cls]" — the test every cluster list the harness
+    hands over has to pass. *)
+
+(** [seg_bytes s] is a segmentation of the key [utf8s s]: concatenates to it, no empty cluster,
+    and passes the correspondence test *)
+Theorem seg_u_valid : forall s,
+  concat (seg_bytes s) = utf8s s /\ Forall (fun c => c <> []) (seg_bytes s)
+  /\ (scalars s = true -> seg_checked (seg_bytes s) = true).
+Proof.
+  intros s. split; [apply seg_bytes_concat|]. split; [apply seg_bytes_nonempty|apply seg_checked_model].
+Qed.
+Print Assumptions seg_u_valid.
+
+Theorem seg_checked_sound : forall cls, seg_checked cls = true ->
+  exists s, utf8_decode (concat cls) = Some s /\ cls = seg_bytes s.
+Proof. exact seg_checked_sound_l. Qed.
+Print Assumptions seg_checked_sound.
+
+(** [seg_oracle_sound] as a theorem about [segment]: an oracle whose entries pass the test answers,
+    for a key [k], with the model's own segmentation of the decoded key — nothing else *)
+Theorem seg_oracle_sound_u : forall segs k s,
+  forallb seg_checked segs = true -> seg_of segs k = Some s ->
+  concat s = k /\ exists t, utf8_decode k = Some t /\ s = seg_bytes t.
+Proof. exact seg_oracle_sound_u_l. Qed.
+Print Assumptions seg_oracle_sound_u.
+
+(** the oracle computed by the model from the keys finds [seg_bytes k] for every key, and passes the test *)
+Theorem seg_of_model : forall keys k,
+  Forall (fun x => scalars x = true) keys -> In k keys ->
+  seg_of (segs_u keys) (utf8s k) = Some (seg_bytes k)
+  /\ forallb seg_checked (segs_u keys) = true.
+Proof. intros keys k H1 H2. split; [apply seg_of_model_l; assumption|apply segs_u_checked; exact H1]. Qed.
+Print Assumptions seg_of_model.
+
+(** get_closest with the model's own segmentation, no covering premise: for a non-empty dictionary
+    given by its entries (key text, frequency) in any iteration order and any query text, the answer is
+    an entry at minimal distance [dist_u norm q k] = C12's [distance] between the clusters of
+    [segment q] and of [segment k], and no entry at that distance is more frequent *)
+Theorem closest_spec_u : forall norm (ents : list (str * N)) q,
+  ents <> [] -> Forall (fun e => scalars (fst e) = true) ents ->
+  exists k f, In (k, f) ents
+    /\ closest norm (segs_u (map fst ents)) (seg_bytes q) (dict_u ents) = CSome (utf8s k, f)
+    /\ forall k' f', In (k', f') ents ->
+         (dist_u norm q k <= dist_u norm q k')%Q
+         /\ ((dist_u norm q k' == dist_u norm q k)%Q -> f' <= f).
+Proof. exact closest_spec_u_l. Qed.
+Print Assumptions closest_spec_u.
+
+(** character n-grams are windows over the clusters of [segment word].  [cls_u cl w] = the cluster
+    oracle of a word computed by the model ([cl] = the class oracle is_alphabetic / is_punctuation,
+    [okc cl c] = alphabetic or punctuation).
+    n = 1: the tokens are the alphabetic-or-punctuation clusters of [segment w], in order *)
+Theorem char_tokens_1_u : forall cl w,
+  char_tokens 1 (cls_u cl w) = map utf8s (filter (okc cl) (segment w)).
+Proof. exact char_tokens_1_u_l. Qed.
+Print Assumptions char_tokens_1_u.
+
+(** n = 3: one window per cluster of [segment w] — the cluster between its two neighbours in
+    <bow> clusters <eow>, joined by spaces — kept iff the centre cluster is alphabetic or punctuation *)
+Theorem char_tokens_3_u : forall cl w,
+  let S := segment w in
+  let B := bow :: map utf8s S ++ [eow] in
+  char_tokens 3 (cls_u cl w) =
+  flat_map (fun i => if okc cl (nth i S [])
+                     then [join_sp [nth i B []; nth (Datatypes.S i) B []; nth (Datatypes.S (Datatypes.S i)) B []]]
+                     else [])
+           (seq 0 (length S)).
+Proof. exact char_tokens_3_u_l. Qed.
+Print Assumptions char_tokens_3_u.
+
+Theorem char_tokens_count_u : forall cl w,
+  (length (char_tokens 1 (cls_u cl w)) <= length (segment w))%nat
+  /\ (length (char_tokens 3 (cls_u cl w)) <= length (segment w))%nat.
+Proof. exact char_tokens_count_u_l. Qed.
+Print Assumptions char_tokens_count_u.
+
+(** the word oracle computed by the model passes the test *)
+Theorem cls_u_agree : forall cl w, scalars w = true -> seg_checked (map fst (cls_u cl w)) = true.
+Proof. exact cls_u_checked. Qed.
+Print Assumptions cls_u_agree.
+
+(** "e U+0301 b" (all alphabetic): two clusters; 3-grams "<bow> é b" and "é b <eow>" *)
+Example char_tokens_u_witness :
+  let cl := fun _ : cluster => (true, false) in
+  char_tokens 1 (cls_u cl [101; 769; 98]) = [[101; 204; 129]; [98]]
+  /\ char_tokens 3 (cls_u cl [101; 769; 98])
+     = [[60;98;111;119;62;32;101;204;129;32;98]; [101;204;129;32;98;32;60;101;111;119;62]].
+Proof. vm_compute. split; reflexivity. Qed.
+Example seg_checked_witness :
+  seg_checked [[101; 204; 129]; [98]] = true /\ seg_checked [[101]; [204; 129]; [98]] = false
+  /\ seg_checked [[204]; [129]] = false.
+Proof. vm_compute. repeat split. Qed.
